@@ -112,3 +112,67 @@ Proof.
     rewrite (HA a b Ha Hb), HC0, HC1.
     rewrite (HB a 0), (HB b 0), (HB a 1), (HB b 1) by lia. reflexivity.
 Qed.
+
+Lemma genpow_schur_dense_ok : stmt_genpow_schur_dense.
+Proof.
+  unfold stmt_genpow_schur_dense. intros P A pre post d1 d2 val mu dg p qe re. cbv zeta.
+  set (shapes := pre ++ GenPow d1 d2 :: post). set (c := length pre).
+  set (o := nc P + sum_by numel pre). set (pcol := nc P + nr A + sum_by pdim pre).
+  intros Hwf Hmu Hq0 Hr0 HvH HvQ HvR HvP HvD0 HvD1 HvD2.
+  set (K := kkt_matrix_v val P A shapes Triu). set (d := d1 + d2).
+  pose proof laws_R as HL.
+  assert (Hgeom : o + d <= pcol /\ nc P <= o).
+  { destruct Hwf as [_ [_ [_ [_ [_ Hm]]]]]. unfold shapes in Hm. rewrite sum_by_app in Hm.
+    cbn [sum_by fold_right numel] in Hm. unfold o, pcol, d. lia. }
+  destruct Hgeom as [Hgeom Hno].
+  assert (Hent' : forall r cc t, In (r, cc, t) (eCone c o pcol (GenPow d1 d2)) -> get OpsR K r cc = val t).
+  { intros r cc t He. apply (kkt_get_entry_ok' OpsR HL val P A shapes Triu Hwf (r, cc, t)). cbn [entries].
+    now apply cone_in. }
+  assert (Hnone : forall i j, nc P <= i ->
+             (o <= j < o + d \/ pcol <= j < pcol + 3) ->
+             (forall e, In e (eCone c o pcol (GenPow d1 d2)) -> ~ (erow e = i /\ ecol e = j)) ->
+             get OpsR K i j = 0%R).
+  { intros i j Hi Hj Hno'. apply (kkt_get_none_ok' OpsR val P A shapes Triu Hwf). cbn [entries].
+    intros e He [Hr Hc]. apply (Hno' e); [|split; assumption].
+    apply (cone_pos P A pre (GenPow d1 d2) post e Hwf He); cbn [numel pdim]; fold o pcol; unfold d in *; lia. }
+  assert (HA : forall a b, a < d -> b < d -> sym_get K (o + a) (o + b) = gp_blockA mu dg a b).
+  { intros a b Ha Hb. unfold gp_blockA at 1. destruct (Nat.eqb_spec a b) as [->|Hne].
+    - unfold sym_get. rewrite Nat.leb_refl.
+      rewrite (Hent' (o + b) (o + b) (THs c b)); [rewrite HvH by exact Hb; unfold gp_blockA; now rewrite Nat.eqb_refl|].
+      unfold eCone. apply in_or_app; left. now apply in_eDiagBlk.
+    - unfold sym_get. destruct (o + a <=? o + b) eqn:E; apply Hnone; try lia;
+        intros e He; unfold eCone in He; ord_prep; unfold erow, ecol; cbn [fst snd]; unfold d in *; lia. }
+  assert (Hsq0 : (- R_sqrt.sqrt mu * 0)%R = 0%R) by ring.
+  assert (HB : forall a k, a < d -> k < 3 -> sym_get K (o + a) (pcol + k) = gp_blockB mu p qe re a k).
+  { intros a k Ha Hk. unfold sym_get. replace (o + a <=? pcol + k) with true by (symmetry; apply Nat.leb_le; lia).
+    destruct k as [|[|[|k]]]; [| | |lia].
+    - rewrite Nat.add_0_r. destruct (Nat.lt_ge_cases a d1) as [Hlt|Hge].
+      + rewrite (Hent' (o + a) pcol (TGq c a)); [now apply HvQ|].
+        unfold eCone. apply in_or_app; right. apply in_or_app; left. unfold eVec. apply in_map_iff. exists a. split; [reflexivity | apply in_seq; lia].
+      + unfold gp_blockB. rewrite (Hq0 a Hge), Hsq0.
+        apply Hnone; try lia. intros e He; unfold eCone in He; ord_prep; unfold erow, ecol; cbn [fst snd]; unfold d in *; lia.
+    - destruct (Nat.lt_ge_cases a d1) as [Hlt|Hge].
+      + unfold gp_blockB. rewrite (Hr0 a Hlt), Hsq0.
+        apply Hnone; try lia. intros e He; unfold eCone in He; ord_prep; unfold erow, ecol; cbn [fst snd]; unfold d in *; lia.
+      + rewrite (Hent' (o + a) (pcol + 1) (TGr c (a - d1))).
+        * rewrite HvR by (unfold d in Ha; lia). now replace (d1 + (a - d1)) with a by lia.
+        * unfold eCone. do 2 (apply in_or_app; right). apply in_or_app; left. unfold eVec. apply in_map_iff.
+          exists (a - d1). split; [f_equal; f_equal; lia | apply in_seq; unfold d in Ha; lia].
+    - rewrite (Hent' (o + a) (pcol + 2) (TGp c a)); [now apply HvP|].
+      unfold eCone. do 3 (apply in_or_app; right). apply in_or_app; left. unfold eVec. apply in_map_iff. exists a. split; [reflexivity | apply in_seq; unfold d in Ha; lia]. }
+  assert (HC : forall k, k < 3 -> sym_get K (pcol + k) (pcol + k) = val (TD c k)).
+  { intros k Hk. unfold sym_get. rewrite Nat.leb_refl. apply Hent'.
+    unfold eCone. do 4 (apply in_or_app; right). now apply in_eAuxD. }
+  assert (Hoff : forall k l, k < l -> l < 3 -> sym_get K (pcol + k) (pcol + l) = 0%R).
+  { intros k l Hkl Hl. unfold sym_get. replace (pcol + k <=? pcol + l) with true by (symmetry; apply Nat.leb_le; lia).
+    apply Hnone; try lia. intros e He. unfold eCone in He. ord_prep; unfold erow, ecol; cbn [fst snd]; unfold d in *; lia. }
+  split; [rewrite <- (Nat.add_0_r pcol) at 1; apply Hoff; lia|].
+  split; [rewrite <- (Nat.add_0_r pcol) at 1; apply Hoff; lia|].
+  split; [apply Hoff; lia|].
+  intros a b Ha Hb.
+  rewrite <- (genpow_expansion_schur_ok mu dg p qe re a b Hmu).
+  unfold schur_elim, gp_auxD. cbn [length seq map fold_right nth].
+  rewrite (HA a b Ha Hb).
+  rewrite <- (Nat.add_0_r pcol) at 3 4. rewrite !HC by lia. rewrite HvD0, HvD1, HvD2.
+  rewrite (HB a 0), (HB b 0), (HB a 1), (HB b 1), (HB a 2), (HB b 2) by lia. reflexivity.
+Qed.
